@@ -129,6 +129,12 @@ pub fn result_json(meta: &Meta, rep: &Report, tier: &str, seed: u64, wall_s: f64
             inconc, rep.evaluations
         )));
     }
+    {
+        let hp = crate::util::HARNESS_PANICS.lock().unwrap();
+        if !hp.is_empty() {
+            undecided.push(J::s(format!("harness code panicked in {} case(s), e.g. {}", hp.len(), hp[0])));
+        }
+    }
     if rep.evaluations == 0 {
         undecided.push(J::s("no case was evaluated"));
     }
